@@ -315,7 +315,9 @@ class AsyncTLSStreamTransport(AsyncStreamTransport):
                 raise
             else:
                 # Flush any pending writes first
-                if self._write_bio.pending and (wait_for_flush or not self.__write_bio_flushers):
+                # NOTE: A read operation (wait_for_flush=False) must not wait here. The data it has got would be lost
+                #       if the task is cancelled meanwhile. They are flushed by the next operation.
+                if self._write_bio.pending and wait_for_flush:
                     await self.__flush_write_bio()
 
                 return result
